@@ -63,6 +63,58 @@ def scalar_items():
     ex += ['sum(/r/v)', '/r/v[. > 0.49999999999999994]', '/r/v[number(.) != number(.)]', 'string(sum(/r/v[position() < 5]))']
     return [{'doc': doc, 'exprs': ex[k:k + 30], 'merged': True, 'binds': [('p', 'urn:p')]} for k in range(0, len(ex), 30)]
 
+def interaction_items():
+    """families aimed at interactions a random expression rarely builds (seeded changes W7-C05-1 / W7-C05-2):
+    (1) comparisons between two node-sets (and a node-set and a scalar) whose string-values mix numbers and
+        non-numbers at the first / middle / last position: XPath 1.0 3.4 asks for SOME pair, so no shortcut through
+        minimum / maximum survives a NaN; every operator, both operand orders, top level and inside predicates;
+    (2) predicates whose value is a NUMBER THAT DEPENDS ON THE CONTEXT NODE (XPath 1.0 2.4: true iff equal to the
+        context position -- possibly at several nodes), on forward and reverse axes, filter expressions and `//`."""
+    vals = [['n/a', '5', '3'], ['5', 'n/a', '3'], ['5', '3', 'n/a'], ['1', '2', '3'], ['x', 'y'], ['7'], [], ['', '4'], ['4', ' 4 ', '04']]
+    lims = [['4', '6', 'none'], ['none', '4', '6'], ['4', 'none', '6'], ['9'], ['0'], [], ['z']]
+    out = []
+    ops = ['<', '<=', '>', '>=', '=', '!=']
+    for vi in range(0, len(vals), 3):
+        doc = '<report>' + ''.join('<m k="%d">%s</m>' % (j + vi, ''.join('<v>%s</v>' % x for x in v)) for j, v in enumerate(vals[vi:vi + 3])) \
+              + ''.join('<l k="%d">%s</l>' % (j, ''.join('<max>%s</max>' % x for x in l)) for j, l in enumerate(lims)) + '</report>'
+        ex = []
+        for j in range(len(vals[vi:vi + 3])):
+            A = '/report/m[%d]/v' % (j + 1)
+            for k in range(len(lims)):
+                B = '/report/l[%d]/max' % (k + 1)
+                for o in ops:
+                    ex.append('%s %s %s' % (A, o, B))
+                    ex.append('%s %s %s' % (B, o, A))
+            for o in ops:
+                for sc in ['4', "'4'", "'n/a'", 'true()', '0 div 0', "''"]:
+                    ex.append('%s %s %s' % (A, o, sc))
+                    ex.append('%s %s %s' % (sc, o, A))
+                ex.append('count(%s[. %s /report/l[1]/max])' % (A, o))
+                ex.append('count(//v[. %s ../../l[2]/max])' % o)
+                ex.append('count(//m[v %s v])' % o)
+                ex.append('count(//m[v %s //max])' % o)
+        for k in range(0, len(ex), 30):
+            out.append({'doc': doc, 'exprs': ex[k:k + 30], 'merged': True, 'binds': [('p', 'urn:p')]})
+    docs = ['<list><i pos="1">a</i><i pos="3">b</i><i pos="3">c</i><i pos="4">d</i><i pos="9">e</i></list>',
+            '<list><i pos="2">ab</i><i pos="2">xy</i><i pos="1">abc</i><g><i pos="1">p</i><i pos="2">qq</i><i pos="2">r</i></g><i pos="5">abcde</i><i pos="x">q</i><i/></list>']
+    numpreds = ['number(@pos)', '@pos + 0', 'position()', 'position() + 0', 'last() - position() + 1', 'count(preceding-sibling::*) + 1',
+                'count(following-sibling::*) + 1', 'string-length(.)', 'sum(@pos)', 'round(@pos)', '-(-position())', 'number(@pos) div 1',
+                'floor(@pos div 2) + 1', 'count(../i)', '@pos * 1', 'position() mod 2 + 1', 'number(../i[1]/@pos)', 'last()', '2', '0', '1.5', 'number("x")']
+    heads = ['/list/i', '//i', '/list/*', '(//i)', '(/list/i | //g/i)', '/list/i[last()]/preceding-sibling::i', '//i[last()]/preceding::i',
+             '/list/i[1]/following-sibling::*', '//g/i[last()]/ancestor-or-self::*', '/list//i', '/list/i[@pos]', '(//i)[@pos > 1]']
+    for d in docs:
+        ex = []
+        for h in heads:
+            for q in numpreds:
+                ex.append('%s[%s]' % (h, q))
+            ex.append('count(%s[number(@pos)][1])' % h)
+            ex.append('count(%s[1][number(@pos)])' % h)
+            ex.append('%s[number(@pos)][position()]' % h)
+            ex.append('%s[position()][number(@pos)]' % h)
+        for k in range(0, len(ex), 30):
+            out.append({'doc': d, 'exprs': ex[k:k + 30], 'merged': True, 'binds': [('p', 'urn:p')]})
+    return out
+
 def c05_oracle(case, out, item):
     """spec vs implementation on one concrete case -> 'spec-mismatch' or None"""
     if out.get('hang'):
@@ -94,7 +146,7 @@ def check(run):
     ex = exhaustive_items(quick)
     if quick:
         ex = [it for k, it in enumerate(ex) if len(it['exprs']) and ('//' not in it['exprs'][0][2:] or k % 3 == 0)]   # the mid-path // family is thinned, the axis family is complete
-    items += ex + scalar_items() + X.corpus_items('C05')
+    items += ex + scalar_items() + interaction_items() + X.corpus_items('C05')
     res, okm = X.evaluate(items, spec=True)
     if not okm:
         run.tie_breaks.append('model driver failed on some case')
